@@ -649,10 +649,10 @@ func ruleCDC4(w *World, r *Report, only map[string]bool) {
 				// from eq successor: reach a return whose error result is nil const
 				q := pathQuery{fn: pfn, target: func(in ssa.Instruction) bool {
 					rt, ok := in.(*ssa.Return)
-					return ok && len(rt.Results) == 2 && isNilConst(rt.Results[1])
+					return ok && len(rt.Results) == 2 && isNilConst(retVal(rt, 1))
 				}, avoid: func(in ssa.Instruction) bool {
 					rt, ok := in.(*ssa.Return)
-					return ok && len(rt.Results) == 2 && !isNilConst(rt.Results[1])
+					return ok && len(rt.Results) == 2 && !isNilConst(retVal(rt, 1))
 				}}
 				// every path from the equal edge must not be forced into an error: existence suffices
 				start := ipos{iff.Block().Succs[eqSucc], -1}
@@ -1283,13 +1283,13 @@ func ruleGRDcrc(w *World, r *Report) {
 	} else {
 		found, wit := pathQuery{fn: fn, target: func(in ssa.Instruction) bool {
 			rt, ok := in.(*ssa.Return)
-			return ok && len(rt.Results) >= 1 && !isNilConst(rt.Results[0])
+			return ok && len(rt.Results) >= 1 && !isNilConst(retVal(rt, 0))
 		}, blocked: blocked}.find(entryPos(fn))
 		r.Cond(!found, "GRD-crc", "ReadFrame:payload-return", w.Pos(rf.Decl.Pos()), "payload returned only through the crc-equal edge", "ReadFrame can return a payload on a path that does not pass the CRC equality test", w.witness(wit)...)
 		// and the error result on that path is nil only via crc-equal edge
 		found2, wit2 := pathQuery{fn: fn, target: func(in ssa.Instruction) bool {
 			rt, ok := in.(*ssa.Return)
-			return ok && len(rt.Results) == 3 && isNilConst(rt.Results[2])
+			return ok && len(rt.Results) == 3 && isNilConst(retVal(rt, 2))
 		}, blocked: blocked}.find(entryPos(fn))
 		r.Cond(!found2, "GRD-crc", "ReadFrame:nil-error-return", w.Pos(rf.Decl.Pos()), "nil error only through the crc-equal edge", "ReadFrame can report success on a path that does not pass the CRC equality test", w.witness(wit2)...)
 	}
@@ -1326,7 +1326,7 @@ func ruleGRDcrc(w *World, r *Report) {
 			if !ok || len(rt.Results) != 2 {
 				return false
 			}
-			c, isC := rt.Results[1].(*ssa.Const)
+			c, isC := retVal(rt, 1).(*ssa.Const)
 			return !(isC && c.Value != nil && c.Value.Kind() == constant.Bool && !constant.BoolVal(c.Value))
 		}, blocked: blockedS}.find(entryPos(rfn))
 		r.Cond(!found, "GRD-crc", "resyncAOF:accept-after-"+pair.name, w.Pos(rs.Decl.Pos()), "candidate accepted only after "+pair.name+" succeeded", "resyncAOF can accept a candidate offset without a successful "+pair.name, w.witness(wit)...)
@@ -1342,4 +1342,212 @@ func hasReaderParam(f *types.Func) bool {
 		}
 	}
 	return false
+}
+
+// ---------- CDC-6b: ErrInvalidMagic means "first byte is not the magic byte" and nothing else ----------
+
+func ruleCDC6b(w *World, r *Report) {
+	r.Doc("CDC-6b", "ReadFrame reports ErrInvalidMagic only through the edge where header[0] != MagicByte (replayAOF refuses start-up on that error at offset 0, so no other damage may be mapped to it)", 1)
+	rf := w.Func("pkg/persistence", "ReadFrame")
+	if rf == nil {
+		r.Und("CDC-6b", "anchor:ReadFrame", "", "anchor lost")
+		return
+	}
+	p := w.Pkg("pkg/persistence")
+	magicErr := p.Types.Scope().Lookup("ErrInvalidMagic")
+	mb, _ := p.Types.Scope().Lookup("MagicByte").(*types.Const)
+	if magicErr == nil || mb == nil {
+		r.Und("CDC-6b", "anchor:ErrInvalidMagic/MagicByte", "", "anchor lost")
+		return
+	}
+	magicVal, _ := constant.Int64Val(mb.Val())
+	n := 0
+	for _, fi := range w.ModuleFuncs() {
+		if relPkg(fi.Obj) != "pkg/persistence" {
+			continue
+		}
+		fn := w.SSAFunc(fi.Obj)
+		if fn == nil {
+			continue
+		}
+		isMagicReturn := func(in ssa.Instruction) bool {
+			rt, ok := in.(*ssa.Return)
+			if !ok || len(rt.Results) == 0 {
+				return false
+			}
+			ev := retVal(rt, len(rt.Results)-1)
+			if u, ok := ev.(*ssa.UnOp); ok {
+				if g, ok := u.X.(*ssa.Global); ok && g.Object() == magicErr {
+					return true
+				}
+			}
+			return false
+		}
+		if len(findInstrs(fn, isMagicReturn)) == 0 {
+			continue
+		}
+		n++
+		// the mismatch edges: If(BinOp NEQ/EQL (load header[0]) MagicByte)
+		blocked := map[edgeKey]bool{}
+		for _, b := range fn.Blocks {
+			for _, in := range b.Instrs {
+				bo, ok := in.(*ssa.BinOp)
+				if !ok || (bo.Op != token.NEQ && bo.Op != token.EQL) {
+					continue
+				}
+				c, ok := constInt(bo.Y)
+				if !ok || c != magicVal {
+					continue
+				}
+				ld, ok := bo.X.(*ssa.UnOp)
+				if !ok {
+					continue
+				}
+				ia, ok := ld.X.(*ssa.IndexAddr)
+				if !ok {
+					continue
+				}
+				if idx, ok := constInt(ia.Index); !ok || idx != 0 {
+					continue
+				}
+				for _, ref := range *bo.Referrers() {
+					if iff, ok := ref.(*ssa.If); ok {
+						mis := 0
+						if bo.Op == token.EQL {
+							mis = 1
+						}
+						blocked[edgeKey{iff.Block(), mis}] = true
+					}
+				}
+			}
+		}
+		key := "ErrInvalidMagic@" + shortName(fi.Obj)
+		if len(blocked) == 0 {
+			r.Bad("CDC-6b", key, w.Pos(fi.Decl.Pos()), shortName(fi.Obj)+" returns ErrInvalidMagic but never compares byte 0 with MagicByte")
+			continue
+		}
+		found, wit := (pathQuery{fn: fn, target: isMagicReturn, blocked: blocked}).find(entryPos(fn))
+		r.Cond(!found, "CDC-6b", key, w.Pos(fi.Decl.Pos()), "returned only through the byte0 != MagicByte edge",
+			"ErrInvalidMagic can be returned although the first byte IS the magic byte (another header field is folded into the same error): damage to that field in the FIRST frame makes Open refuse to start instead of skipping one frame", w.witness(wit)...)
+	}
+	if n == 0 {
+		r.Und("CDC-6b", "anchor:return ErrInvalidMagic", "", "no function of pkg/persistence returns ErrInvalidMagic any more")
+	}
+}
+
+// ---------- GRD-scan: the resync scan tries every byte offset after the damage ----------
+
+func ruleGRDscan(w *World, r *Report) {
+	r.Doc("GRD-scan", "resyncAOF's forward scan tries every byte of every window it reads as a frame start: index from 0 while < bytes read, step 1; window base advances by exactly the bytes read; first base = last valid offset + 1", 4)
+	rs := w.Func("pkg/engine", "resyncAOF")
+	if rs == nil {
+		r.Und("GRD-scan", "anchor:resyncAOF", "", "anchor lost")
+		return
+	}
+	fn := w.SSAFunc(rs.Obj)
+	pos := w.Pos(rs.Decl.Pos())
+	// n := file.Read(buf) #0
+	var nVal ssa.Value
+	for _, in := range findInstrs(fn, func(in ssa.Instruction) bool { return isCallTo(in, "os", "File.Read") }) {
+		for _, ref := range *in.(*ssa.Call).Referrers() {
+			if ex, ok := ref.(*ssa.Extract); ok && ex.Index == 0 {
+				nVal = ex
+			}
+		}
+	}
+	if nVal == nil {
+		r.Und("GRD-scan", "resyncAOF:read-count", pos, "scan no longer reads windows with (*os.File).Read — shape not recognised")
+		return
+	}
+	// the comparison of the buffer byte with MagicByte gives the index variable
+	var idxVal ssa.Value
+	for _, b := range fn.Blocks {
+		for _, in := range b.Instrs {
+			bo, ok := in.(*ssa.BinOp)
+			if !ok || bo.Op != token.EQL && bo.Op != token.NEQ {
+				continue
+			}
+			if c, ok := constInt(bo.Y); !ok || c != 0xA5 {
+				continue
+			}
+			if ld, ok := bo.X.(*ssa.UnOp); ok {
+				if ia, ok := ld.X.(*ssa.IndexAddr); ok {
+					idxVal = ia.Index
+				}
+			}
+		}
+	}
+	phi, _ := idxVal.(*ssa.Phi)
+	if phi == nil {
+		r.Und("GRD-scan", "resyncAOF:index", pos, "cannot find the scan index (a loop variable indexing the window against MagicByte)")
+		return
+	}
+	startsAtZero, stepOne := false, false
+	for _, e := range phi.Edges {
+		if c, ok := constInt(e); ok && c == 0 {
+			startsAtZero = true
+		}
+		if bo, ok := e.(*ssa.BinOp); ok && bo.Op == token.ADD && bo.X == phi {
+			if c, ok := constInt(bo.Y); ok && c == 1 {
+				stepOne = true
+			}
+		}
+	}
+	r.Cond(startsAtZero, "GRD-scan", "resyncAOF:index-starts-at-0", pos, "scan index starts at 0", "the scan index does not start at 0: the first byte(s) of each window are never tried as a frame start")
+	r.Cond(stepOne, "GRD-scan", "resyncAOF:index-step-1", pos, "scan index advances by 1", "the scan index does not advance by exactly 1: offsets are skipped")
+	// loop bound: i < n exactly
+	boundOK := false
+	var boundDesc string
+	for _, ref := range *phi.Referrers() {
+		bo, ok := ref.(*ssa.BinOp)
+		if !ok || bo.X != phi {
+			continue
+		}
+		if bo.Op == token.LSS || bo.Op == token.NEQ {
+			if _, isIf := firstIf(bo); isIf {
+				if bo.Y == nVal {
+					boundOK = true
+				} else {
+					boundDesc = bo.Y.String()
+				}
+			}
+		}
+	}
+	r.Cond(boundOK, "GRD-scan", "resyncAOF:index-bound-is-bytes-read", pos, "scan runs while index < bytes read", "the scan loop bound is not the number of bytes read ("+boundDesc+"): the last byte(s) of each window are never tried, so an intact frame starting exactly there is skipped and, if it is the last one, truncated away")
+	// base advance: base' = base + int64(n); first base = lastValid + 1; candidate = base + int64(i)
+	advOK, firstOK, candOK := false, false, false
+	for _, b := range fn.Blocks {
+		for _, in := range b.Instrs {
+			bo, ok := in.(*ssa.BinOp)
+			if !ok || bo.Op != token.ADD {
+				continue
+			}
+			y := stripConv(bo.Y)
+			if y == nVal {
+				if _, ok := bo.X.(*ssa.Phi); ok {
+					advOK = true
+				}
+			}
+			if y == ssa.Value(phi) {
+				candOK = true
+			}
+			if p, ok := bo.X.(*ssa.Parameter); ok && p == fn.Params[len(fn.Params)-1] {
+				if c, ok := constInt(bo.Y); ok && c == 1 {
+					firstOK = true
+				}
+			}
+		}
+	}
+	r.Cond(advOK, "GRD-scan", "resyncAOF:base-advances-by-bytes-read", pos, "window base advances by the bytes read", "the window base does not advance by exactly the number of bytes read: offsets are skipped or re-read")
+	r.Cond(firstOK, "GRD-scan", "resyncAOF:first-base", pos, "scan starts one byte after the last valid offset", "the scan does not start at lastValid+1")
+	r.Cond(candOK, "GRD-scan", "resyncAOF:candidate=base+index", pos, "candidate offset = base + index", "the candidate offset is not base+index")
+}
+
+func firstIf(v ssa.Value) (*ssa.If, bool) {
+	for _, ref := range *v.Referrers() {
+		if iff, ok := ref.(*ssa.If); ok {
+			return iff, true
+		}
+	}
+	return nil, false
 }
